@@ -46,8 +46,11 @@ struct ElectionScenario {
     n: usize,
     quorum_configured: Option<usize>,
     steps: Vec<Step>,
-    /// only histories starting with `Timeout` followed by `VoteNew`s (to reach large quorums)
-    vote_path_only: bool,
+    /// 0: every history; 1: only histories starting with `Timeout` followed by votes (to reach large
+    /// quorums); 2: only histories of election rounds - `Timeout`, votes of configured peers,
+    /// `Silence` (the round expires), `Timeout` again … - so that several complete rounds fit into
+    /// the depth (votes of an expired round must not count in the next one)
+    family: u8,
 }
 
 async fn spin(n: usize) {
@@ -106,10 +109,16 @@ impl Scenario for ElectionScenario {
         json!(format!("{:?}", self.steps[op as usize]))
     }
     fn run(&self, history: &[u16]) -> Option<StepOut> {
-        if self.vote_path_only {
+        if self.family != 0 {
             for (i, o) in history.iter().enumerate() {
                 let s = &self.steps[*o as usize];
-                let ok = if i == 0 { *s == Step::Timeout } else { matches!(s, Step::VoteNew | Step::VoteDup | Step::VoteUnknown) };
+                let ok = if i == 0 {
+                    *s == Step::Timeout
+                } else if self.family == 1 {
+                    matches!(s, Step::VoteNew | Step::VoteDup | Step::VoteUnknown)
+                } else {
+                    matches!(s, Step::VoteNew | Step::VoteDup | Step::Silence | Step::Timeout)
+                };
                 if !ok {
                     return None;
                 }
@@ -415,11 +424,15 @@ fn main() {
         for q in quorums {
             let eff = q.unwrap_or(n / 2 + 1);
             let depth = if thorough { if n <= 5 { 5 } else { 4 } } else if n <= 3 { 4 } else { 3 };
-            for (name, vote_path_only, d) in [("all", false, depth), ("votes", true, eff + 2)] {
-                if vote_path_only && eff + 2 <= depth {
+            let rounds_depth = if thorough { 9 } else { 7 };
+            for (name, family, d) in [("all", 0u8, depth), ("votes", 1, eff + 2), ("rounds", 2, rounds_depth)] {
+                if family == 1 && eff + 2 <= depth {
                     continue;
                 }
-                let sc = ElectionScenario { n, quorum_configured: q, steps: all_steps(), vote_path_only };
+                if family == 2 && (n == 1 || eff == 1) {
+                    continue; // decided by the node's own vote, no round ever expires
+                }
+                let sc = ElectionScenario { n, quorum_configured: q, steps: all_steps(), family };
                 let lim = Limits { max_depth: d, min_depth: 2, dedup: false, wall: Duration::from_secs(if thorough { 240 } else { 20 }), selfcheck: 8, ..Default::default() };
                 let stats = explore(&sc, &lim);
                 let label = format!("n{n}-q{}-{name}", q.map(|q| q.to_string()).unwrap_or_else(|| "default".into()));
@@ -453,7 +466,7 @@ fn main() {
     ev.set("configurations_with_leader_outcome", json!(outcomes.keys().filter(|k| k.ends_with(":leader")).map(|k| k.rsplitn(3, '-').last().unwrap_or("").to_owned() + "-" + k.split('-').nth(1).unwrap_or("")).collect::<BTreeSet<_>>().len()));
     ev.set("distinct_nontrivial", json!(classes.len()));
     ev.set("exhaustive", json!(exhaustive));
-    ev.set("rule", json!(format!("cluster sizes 1..{max_n}, configured quorum none or 1..n; for each configuration every sequence of scripted peer behaviours (vote from a new / duplicate / unknown node, vote request with higher / equal / lower priority, from a stranger, heartbeat request from a member / stranger, heartbeat response, election timeout, silence) up to the completed depth, plus the timeout-then-votes paths up to quorum+2 so that the leader outcome is reachable for every quorum; distinct_nontrivial counts distinct (last step, outcome) classes")));
+    ev.set("rule", json!(format!("cluster sizes 1..{max_n}, configured quorum none or 1..n; for each configuration every sequence of scripted peer behaviours (vote from a new / duplicate / unknown node, vote request with higher / equal / lower priority, from a stranger, heartbeat request from a member / stranger, heartbeat response, election timeout, silence) up to the completed depth, plus the timeout-then-votes paths up to quorum+2 so that the leader outcome is reachable for every quorum, plus the election-round paths (timeout, votes of configured peers, expiry of the round, timeout, votes …) up to depth {rounds} so that votes of expired rounds are offered to later rounds; distinct_nontrivial counts distinct (last step, outcome) classes", rounds = if thorough { 9 } else { 7 })));
     ev.assume("safety only: 'leader' implies votes from at least quorum-1 distinct configured peers since the node's latest vote-request broadcast; 'follower' implies a heartbeat request from that node, and follow() returns without starting anything for a node that is not configured; liveness is not asserted");
     ev.assume("paused tokio clock, real loopback UDP sockets, the harness never parks (fixed number of yields per step, event_interval 1); the randomized election timeout (t..2t) is crossed by advancing in t/8 steps until the vote requests are observed");
     ev.assume("senders are chosen canonically (lowest-numbered configured peer): the election code inspects a peer's identity only for membership and equality");
